@@ -1,1 +1,4 @@
+import Generated.Bits
+import Generated.Categories
+import Generated.KnownWords
 import Generated.Tables
